@@ -24,6 +24,7 @@ func checkC13(c *Ctx, r *Report) {
 	// the symbol is looked up for lengths the mode encoders estimate: the Base 256 estimate is decided with its length field
 	checkDMBase256(c, r)
 	checkDMWriterLookup(c, r)
+	checkECIEmission(c, r) // the header whose length enters the version choice carries an ECI in byte mode only (also C15)
 	r.Note("not decided: that calculateBitsNeeded equals the number of bits the segment encoders later emit (loop arithmetic over the payload)")
 }
 
